@@ -142,6 +142,25 @@ Proof.
     destruct IH as (E2 & P2 & R3 & R4). split; [exact E2|]. split; [exact P2|]. split; [congruence|]. constructor; assumption.
 Qed.
 
+
+(* the same induction, keeping the invariant [Next] of the final state (needed by the recovery round trip) *)
+Lemma lockstep_next g P cap vbits : wfgeo g -> N.of_nat cap <= capL g ->
+  forall bl a c, Pair g a c -> Next g a -> Forall (fun p => snd p < B g) bl ->
+  let '(a', rsa) := grun map_sto P cap vbits a bl in
+  let '(c', rsc) := grun (flash_sto g) P cap vbits c bl in
+  Pair g a' c' /\ Next g a' /\ rsa = rsc.
+Proof.
+  intros W Hcap. induction bl as [|[i b] bl IH]; intros a c PR NX HB; cbn [grun].
+  - split; [exact PR|]. split; [exact NX| reflexivity].
+  - inversion HB as [|? ? Hb HB']; subst. cbn [snd] in Hb.
+    pose proof (handle_block_sim g P cap vbits a c i b W PR NX Hcap Hb) as H2. cbv zeta in H2.
+    destruct (handle_block map_sto P cap vbits a i b) as [a1 ra1]. destruct (handle_block (flash_sto g) P cap vbits c i b) as [c1 rc1].
+    cbn [fst snd] in H2. destruct H2 as (R2 & P1 & N1 & _).
+    specialize (IH a1 c1 P1 N1 HB').
+    destruct (grun map_sto P cap vbits a1 bl) as [a2 rsa]. destruct (grun (flash_sto g) P cap vbits c1 bl) as [c2 rsc].
+    destruct IH as (P2 & N2 & R3). split; [exact P2|]. split; [exact N2| congruence].
+Qed.
+
 (* blocks computed from bounded originals are bounded *)
 Lemma dot_bound k r X Bd : (forall i, (i < k)%nat -> X i < 2 ^ Bd) -> Recon.dot k r X < 2 ^ Bd.
 Proof.
@@ -152,7 +171,7 @@ Qed.
 (* the initial states are related when both slots are erased *)
 Definition empty_amap : amap := {| adat := fun _ => None; apar := fun _ => None; amat := fun _ => None |}.
 Lemma rel_init g m0 : wfgeo g ->
-  (forall x, (fw g <= x < fw g + ssize g \/ pa g <= x < pa g + ssize g) -> m0 x = 255) -> Rel g empty_amap m0.
+  (forall x, (fw g + HEADER_SIZE <= x < fw g + ssize g \/ pa g + HEADER_SIZE <= x < pa g + ssize g) -> m0 x = 255) -> Rel g empty_amap m0.
 Proof.
   intros W He. constructor; cbn [empty_amap adat apar amat]; try discriminate.
   - intros i Hi. destruct (dstore_confined g (N.of_nat i) W Hi) as (D1 & D2 & D3 & D4). unfold dview.
@@ -168,10 +187,33 @@ Proof.
   - intros k. split; reflexivity.
 Qed.
 
+
+(* the freshly started session: paired with the empty abstract maps, invariant holds *)
+Lemma init_pair_next g m0 : wfgeo g ->
+  (forall x, (fw g + HEADER_SIZE <= x < fw g + ssize g \/ pa g + HEADER_SIZE <= x < pa g + ssize g) -> m0 x = 255) ->
+  let nn := N.to_nat (nseg g) in
+  let a0 := mkg nn 0 (sz g) (fun _ : nat => false) (fun _ : nat => false) empty_amap in
+  let c0 := mkg nn 0 (sz g) (fun _ : nat => false) (fun _ : nat => false) m0 in
+  Pair g a0 c0 /\ Next g a0.
+Proof.
+  intros W He nn a0 c0. split; [constructor; try reflexivity; apply rel_init; assumption|].
+  assert (Hnn : N.of_nat nn = nseg g) by (unfold nn; lia).
+  right. split; [|left; split; reflexivity]. constructor; cbn [a0 n l bs done used store empty_amap adat apar amat].
+  - exact Hnn.
+  - apply N.le_0_l.
+  - intros i _ Q. discriminate Q.
+  - intros i Hi _. split; [intros Q; contradiction| intros (j & Hj & _); lia].
+  - intros k Hk. lia.
+  - reflexivity.
+  - intros k r Q. discriminate Q.
+  - intros k Q. discriminate Q.
+Qed.
+
 (* ---------- C01 core at byte level ---------- *)
-Theorem flash_reconstruction_sound g (P : nat -> N) (vbits : nat) (X : nat -> N) (bl : list (nat * N)) m0 :
+(* only the parts of the two slots behind the 1 KiB header area need to be erased (start_update has programmed the headers) *)
+Theorem flash_reconstruction_sound_hdr g (P : nat -> N) (vbits : nat) (X : nat -> N) (bl : list (nat * N)) m0 :
   wfgeo g ->
-  (forall x, (fw g <= x < fw g + ssize g \/ pa g <= x < pa g + ssize g) -> m0 x = 255) ->
+  (forall x, (fw g + HEADER_SIZE <= x < fw g + ssize g \/ pa g + HEADER_SIZE <= x < pa g + ssize g) -> m0 x = 255) ->
   (forall i, (N.of_nat i < nseg g) -> X i < B g) ->
   (forall m, (N.of_nat m < nseg g) -> P m = N.shiftl 1 (N.of_nat m)) ->
   Forall (Recon.consistent P (N.to_nat (nseg g)) X) bl ->
@@ -216,6 +258,22 @@ Proof.
   assert (HiN : N.of_nat i < nseg g) by lia.
   pose proof (R_d g _ _ (P_rel g a' c' P') i HiN) as V. rewrite (E_dat s' a' E'), Full in V. unfold dview in V.
   destruct (N.eqb_spec (store c' (saddr g (N.of_nat i))) MARK) as [EM|]; [|discriminate]. inversion V. split; [exact EM| reflexivity].
+Qed.
+
+Theorem flash_reconstruction_sound g (P : nat -> N) (vbits : nat) (X : nat -> N) (bl : list (nat * N)) m0 :
+  wfgeo g ->
+  (forall x, (fw g <= x < fw g + ssize g \/ pa g <= x < pa g + ssize g) -> m0 x = 255) ->
+  (forall i, (N.of_nat i < nseg g) -> X i < B g) ->
+  (forall m, (N.of_nat m < nseg g) -> P m = N.shiftl 1 (N.of_nat m)) ->
+  Forall (Recon.consistent P (N.to_nat (nseg g)) X) bl ->
+  let nn := N.to_nat (nseg g) in let cap := N.to_nat (capL g) in
+  let c0 := mkg nn 0 (sz g) (fun _ => false) (fun _ => false) m0 in
+  let '(c', rsc) := grun (flash_sto g) P cap vbits c0 bl in
+  (exists len, In (Done len) rsc) ->
+  forall i, (i < nn)%nat ->
+    store c' (saddr g (N.of_nat i)) = MARK /\ c_dget g (store c') (N.of_nat i) = X i.
+Proof.
+  intros W He. apply flash_reconstruction_sound_hdr; [exact W|]. intros x Hx. apply He. unfold HEADER_SIZE in Hx. lia.
 Qed.
 Print Assumptions flash_reconstruction_sound.
 
